@@ -39,6 +39,40 @@ pub enum RKind {
     Eof,
 }
 
+/// Per-trace device behaviour beyond the script.
+#[derive(Clone, Copy, Debug, PartialEq, Eq, Serialize, Deserialize)]
+pub struct DevCfg {
+    /// at most this many retryable answers (`Interrupted`, one-off `Ok(0)`) in a row; then the
+    /// device transfers a byte (a retry loop over a device that never progresses is not a defect)
+    pub intr_cap: u8,
+    /// std only: the `ErrorKind` a hard error carries, see `hard_kind()`
+    pub hard_kind: u8,
+    /// after its hard error the device fails every further call as well (else: keeps working)
+    pub persist: bool,
+}
+
+impl Default for DevCfg {
+    fn default() -> Self {
+        DevCfg { intr_cap: 2, hard_kind: 0, persist: false }
+    }
+}
+
+pub const HARD_KINDS: usize = 6;
+/// 1 = WouldBlock: the only kind a caller may reasonably retry (judged leniently)
+pub const KIND_WOULD_BLOCK: u8 = 1;
+
+fn hard_kind(k: u8, write: bool) -> std::io::ErrorKind {
+    use std::io::ErrorKind as K;
+    match k % HARD_KINDS as u8 {
+        0 => if write { K::BrokenPipe } else { K::ConnectionReset },
+        1 => K::WouldBlock,
+        2 => K::TimedOut,
+        3 => if write { K::WriteZero } else { K::UnexpectedEof },
+        4 => K::Other,
+        _ => K::PermissionDenied,
+    }
+}
+
 #[derive(Default, Debug)]
 pub struct WLog {
     /// every byte the device accepted, in order (also after a fault: a hole shows up here)
@@ -55,6 +89,10 @@ pub struct WLog {
     pub flush_fired: bool,
     pub flushes: u64,
     pub interrupted: u64,
+    /// longest run of consecutive retryable answers
+    pub max_intr_run: u8,
+    /// calls refused by a device that keeps failing after its hard error
+    pub refused_after_fault: u64,
     pub short_writes: u64,
     pub max_chain: u32,
     chain: u32,
@@ -85,6 +123,10 @@ pub struct RLog {
     /// how often the device answered Ok(0) (end of stream) to a non-empty read
     pub eof_answers: u64,
     pub interrupted: u64,
+    /// longest run of consecutive retryable answers
+    pub max_intr_run: u8,
+    /// calls refused by a device that keeps failing after its hard error
+    pub refused_after_fault: u64,
     pub short_reads: u64,
     pub max_chain: u32,
     chain: u32,
@@ -114,13 +156,14 @@ pub struct SimWriter {
     buffering: bool,
     flush_err: bool,
     intr_run: u8,
+    cfg: DevCfg,
 }
 
 impl SimWriter {
-    pub fn new(script: Vec<WStep>, fault_at: Option<usize>, buffering: bool, flush_err: bool) -> (SimWriter, Rc<RefCell<WLog>>) {
+    pub fn new(script: Vec<WStep>, fault_at: Option<usize>, buffering: bool, flush_err: bool, cfg: DevCfg) -> (SimWriter, Rc<RefCell<WLog>>) {
         let log = Rc::new(RefCell::new(WLog::default()));
         (
-            SimWriter { log: log.clone(), script, si: 0, fault_at, buffering, flush_err, intr_run: 0 },
+            SimWriter { log: log.clone(), script, si: 0, fault_at, buffering, flush_err, intr_run: 0, cfg },
             log,
         )
     }
@@ -153,6 +196,12 @@ impl SimWriter {
                 return IoOut::Hard;
             }
         }
+        if log.hard_fired && self.cfg.persist {
+            log.refused_after_fault += 1;
+            let at = log.accepted.len() as u32;
+            log.push_ev((b'E', at, buf.len() as u32));
+            return IoOut::Hard;
+        }
         if log.zero_fired {
             log.zero_answers += 1;
             return IoOut::Ok(0);
@@ -164,14 +213,15 @@ impl SimWriter {
         let step = self.next_step();
         let mut log = self.log.borrow_mut();
         let k = match step {
-            WStep::Interrupted if intr && self.intr_run < 2 => {
+            WStep::Interrupted if intr && self.intr_run < self.cfg.intr_cap => {
                 self.intr_run += 1;
+                log.max_intr_run = log.max_intr_run.max(self.intr_run);
                 log.interrupted += 1;
                 let at = log.accepted.len() as u32;
                 log.push_ev((b'I', at, buf.len() as u32));
                 return IoOut::Interrupted;
             }
-            WStep::Zero if std_semantics && self.intr_run < 2 => {
+            WStep::Zero if std_semantics && self.intr_run < self.cfg.intr_cap.min(2) => {
                 self.intr_run += 1;
                 log.zero_once += 1;
                 let at = log.accepted.len() as u32;
@@ -240,12 +290,13 @@ pub struct SimReader {
     si: usize,
     fault: Option<(usize, RKind)>,
     intr_run: u8,
+    cfg: DevCfg,
 }
 
 impl SimReader {
-    pub fn new(data: Rc<Vec<u8>>, script: Vec<RStep>, fault: Option<(usize, RKind)>) -> (SimReader, Rc<RefCell<RLog>>) {
+    pub fn new(data: Rc<Vec<u8>>, script: Vec<RStep>, fault: Option<(usize, RKind)>, cfg: DevCfg) -> (SimReader, Rc<RefCell<RLog>>) {
         let log = Rc::new(RefCell::new(RLog::default()));
-        (SimReader { log: log.clone(), data, script, si: 0, fault, intr_run: 0 }, log)
+        (SimReader { log: log.clone(), data, script, si: 0, fault, intr_run: 0, cfg }, log)
     }
 
     fn next_step(&mut self) -> RStep {
@@ -272,7 +323,10 @@ impl SimReader {
             if pos == k {
                 match kind {
                     RKind::HardError => {
-                        if log.fired.is_none() {
+                        if log.fired.is_none() || self.cfg.persist {
+                            if log.fired.is_some() {
+                                log.refused_after_fault += 1;
+                            }
                             log.fired = Some(RKind::HardError);
                             log.push_ev((b'E', pos as u32, buf.len() as u32));
                             return IoOut::Hard;
@@ -304,8 +358,9 @@ impl SimReader {
         let step = self.next_step();
         let mut log = self.log.borrow_mut();
         let k = match step {
-            RStep::Interrupted if intr && self.intr_run < 2 => {
+            RStep::Interrupted if intr && self.intr_run < self.cfg.intr_cap => {
                 self.intr_run += 1;
+                log.max_intr_run = log.max_intr_run.max(self.intr_run);
                 log.interrupted += 1;
                 log.push_ev((b'I', pos as u32, buf.len() as u32));
                 return IoOut::Interrupted;
@@ -344,7 +399,7 @@ impl std::io::Write for SimWriter {
         match self.do_write(buf, true, true) {
             IoOut::Ok(n) => Ok(n),
             IoOut::Interrupted => Err(std::io::Error::from(std::io::ErrorKind::Interrupted)),
-            IoOut::Hard => Err(std::io::Error::from(std::io::ErrorKind::BrokenPipe)),
+            IoOut::Hard => Err(std::io::Error::from(hard_kind(self.cfg.hard_kind, true))),
         }
     }
     fn flush(&mut self) -> std::io::Result<()> {
@@ -357,7 +412,7 @@ impl std::io::Read for SimReader {
         match self.do_read(buf, true) {
             IoOut::Ok(n) => Ok(n),
             IoOut::Interrupted => Err(std::io::Error::from(std::io::ErrorKind::Interrupted)),
-            IoOut::Hard => Err(std::io::Error::from(std::io::ErrorKind::ConnectionReset)),
+            IoOut::Hard => Err(std::io::Error::from(hard_kind(self.cfg.hard_kind, false))),
         }
     }
 }
